@@ -491,6 +491,36 @@ func checkC16(r *Result) {
 		}
 		r.check(len(sites) >= 1, "COHORT", "(x/bridge/keeper.Keeper).EncodeAndHashValidatorSet # collects one power per validator", "-", fmt.Sprint(len(sites)))
 	}
+	// signatures arrive one block late and are accepted for any stored checkpoint, not only the latest one: the function
+	// fails only when one of its lookups / the decode / the store fails, it has no rejection of its own
+	if ss := P.Func("(x/bridge/keeper.Keeper).SetBridgeValsetSignature"); ss != nil {
+		tms := NewTermer()
+		n, own := 0, ""
+		for _, b := range ss.Blocks {
+			ret, isRet := b.Instrs[len(b.Instrs)-1].(*ssa.Return)
+			if !isRet || !DefinitelyFails(ret) {
+				continue
+			}
+			n++
+			e := tms.Of(ResultOf(ret, 0))
+			propagated := (strings.HasPrefix(e.Op, "ext:") && len(e.Args) == 1 && strings.HasPrefix(e.Args[0].Op, "call:")) || (strings.HasPrefix(e.Op, "call:") && strings.Contains(e.Op, "Keeper.") || strings.HasPrefix(e.Op, "call:(*cosmossdk.io/collections") || strings.HasPrefix(e.Op, "call:(cosmossdk.io/collections"))
+			if e.Op == "phi" {
+				propagated = true
+				for _, a := range e.Args {
+					if !(strings.HasPrefix(a.Op, "ext:") || strings.HasPrefix(a.Op, "call:(")) {
+						propagated = false
+					}
+				}
+			}
+			if strings.HasPrefix(e.Op, "call:fmt.Errorf") || strings.HasPrefix(e.Op, "call:errors.New") || strings.HasPrefix(e.Op, "global:") || strings.Contains(e.Op, "errors.Wrap") {
+				propagated = false
+			}
+			if !propagated {
+				own = P.Pos(ret.Pos()) + ": " + clip(e.String(), 100)
+			}
+		}
+		r.check(own == "" && n >= 5, "SLOTS", "(x/bridge/keeper.Keeper).SetBridgeValsetSignature # a signature is refused only when a lookup, the decode or the store fails (no rejection of older checkpoints)", P.Pos(ss.Pos()), fmt.Sprintf("%d failing returns ; own rejection: %s", n, own))
+	}
 	// PowerDiff: per validator address the entry is old power, minus new power where both exist, or minus new power alone
 	if pd := P.Func("(x/bridge/keeper.Keeper).PowerDiff"); pd == nil {
 		r.broken("anchor PowerDiff does not resolve")
